@@ -166,6 +166,19 @@ fn check_list(list: &[&Version], sink: &Sink) {
     if x != y {
         sink.report("sort", format!("{}|perm", key), case(), "sorted list is not a permutation".into(), "permutation".into());
     }
+    // the resolver entry points must agree with the same order (observation point of C04)
+    if let Ok(r) = Range::parse(">=1.0.0-0 || <1.0.0-0") {
+        let sat: Vec<&Version> = owned.iter().filter(|v| r.satisfies(v)).collect();
+        for (which, got) in [("max", r.max_satisfying(&owned)), ("min", r.min_satisfying(&owned))] {
+            let ok = match got {
+                None => sat.is_empty(),
+                Some(g) => !sat.is_empty() && sat.iter().all(|v| if which == "max" { rcmp(v, g) != Ordering::Greater } else { rcmp(v, g) != Ordering::Less }),
+            };
+            if !ok {
+                sink.report("minmax", format!("{}|{}_satisfying", key, which), case(), format!("{:?}", got.map(vtext_full)), "the extreme satisfying element in SemVer order".into());
+            }
+        }
+    }
     if let (Some(mx), Some(mn)) = (owned.iter().max(), owned.iter().min()) {
         for v in &owned {
             if rcmp(v, mx) == Ordering::Greater || rcmp(v, mn) == Ordering::Less {
